@@ -8,11 +8,12 @@
    The same bookkeeping is done here in [last].
    Definitions only. *)
 From Coq Require Import List NArith ZArith Bool.
-From BLB Require Import Store.Bytes Store.Model Store.FaultModel.
+From BLB Require Import Store.Bytes Store.Model Store.Crash.
 Import ListNotations.
 Open Scope N_scope.
 
-Record wstate := mkw { w_store : store; w_last : amap stamp; w_nd : N }.
+Record wstate := mkw { w_cs : cstore; w_last : amap stamp; w_nd : N }.
+Definition w_store (w : wstate) : store := vs (w_cs w).
 
 Definition zN (z : Z) : N := Z.to_N z.
 
@@ -144,35 +145,28 @@ Definition enc_res (w : wstate) (o : op) (r : res) : list Z * amap stamp :=
       end
   end.
 
+(* one decoded operation with fault [f] armed *)
+Definition step_op (w : wstate) (f : fault) (l : list Z) : wstate * list Z :=
+  match decode w l with
+  | None => (w, [(-1)%Z])
+  | Some o =>
+      let '(cs', r) := x_step (w_cs w) f o in
+      let '(out, last') := enc_res w o r in
+      let w' := mkw cs' last' (w_nd w) in
+      (w', out ++ enc_scan w')
+  end.
+
 Definition step_wire (w : wstate) (l : list Z) : wstate * list Z :=
   match l with
   | [0%Z; kind; nd] =>
-      let w' := mkw (init (negb (kind =? 0)%Z)) [] (zN nd) in (w', enc_scan w')
-  | 13%Z :: t :: off :: orc :: _fk :: fe :: r =>
-      (* Create with an injected disk fault on the new file (Open / Setxattr / data Write, kind _fk) *)
-      match take_rle r with
-      | Some (d, []) =>
-          let '(s', e) := create_f (w_store w) (zN t) d (zN off) (zN orc) (Some fe) in
-          let w' := mkw s' (w_last w) (w_nd w) in (w', e :: enc_scan w')
-      | _ => (w, [(-1)%Z])
-      end
-  | 14%Z :: t :: v :: orc :: _fk :: fe :: n :: r =>
-      (* PullTract with an injected disk fault on the first new file it opens *)
-      match take_srcs (Z.to_nat n) r with
-      | Some (ss, []) =>
-          let '(s', e) := pull_tract_f (w_store w) (zN t) ss v (zN orc) (Some fe) in
-          let w' := mkw s' (w_last w) (w_nd w) in (w', e :: enc_scan w')
-      | _ => (w, [(-1)%Z])
-      end
-  | _ =>
-      match decode w l with
-      | None => (w, [(-1)%Z])
-      | Some o =>
-          let '(s', r) := step (w_store w) o in
-          let '(out, last') := enc_res w o r in
-          let w' := mkw s' last' (w_nd w) in
-          (w', out ++ enc_scan w')
-      end
+      let w' := mkw (cinit (negb (kind =? 0)%Z)) [] (zN nd) in (w', enc_scan w')
+  | 15%Z :: n :: rest =>
+      (* the operation [rest] with its n-th faultable disk call (Open/Setxattr/Write/Close) failing *)
+      step_op w (Some (Z.to_nat n)) rest
+  | [16%Z] =>
+      (* power loss: unsynced updates are gone, the process restarts with no disk attached *)
+      let w' := mkw (power_loss (w_cs w)) (w_last w) (w_nd w) in (w', enc_scan w')
+  | _ => step_op w None l
   end.
 
 Fixpoint run_wire (w : wstate) (ops : list (list Z)) : list (list Z) :=
@@ -183,4 +177,4 @@ Fixpoint run_wire (w : wstate) (ops : list (list Z)) : list (list Z) :=
 
 (* Generic driver entry point: ops of one case -> expected observation lines. *)
 Definition run_case (ops : list (list Z)) : list (list Z) :=
-  run_wire (mkw (init false) [] 0) ops.
+  run_wire (mkw (cinit false) [] 0) ops.
